@@ -1205,7 +1205,7 @@ Theorem C06_7_refuted :
   /\ (forall dbg, path_segments_session dbg w7_url [PPush [37; 50; 101; 9; 46]]
                   = Some (with_path w7_url [47;97;47;98;47;37;50;53;50;101;46], SOk))
   /\ path w7_popped = Some [47; 97; 47]
-  /\ w7_popped <> with_path w7_url (push_text (st_of w7_url) (path_text w7_url) [46; 9; 46]).
+  /\ w7_popped <> with_path w7_url (push_text (st_of w7_url) (path_bytes w7_url) [46; 9; 46]).
 Proof. exact c06_7_witness. Qed.
 Check C06_7_refuted :
   wf_b w7_url = true /\ known_c06_7 [46; 9; 46] = true /\ known_c06_7 [46; 10] = true
@@ -1216,7 +1216,7 @@ Check C06_7_refuted :
   /\ (forall dbg, path_segments_session dbg w7_url [PPush [37; 50; 101; 9; 46]]
                   = Some (with_path w7_url [47;97;47;98;47;37;50;53;50;101;46], SOk))
   /\ path w7_popped = Some [47; 97; 47]
-  /\ w7_popped <> with_path w7_url (push_text (st_of w7_url) (path_text w7_url) [46; 9; 46]).
+  /\ w7_popped <> with_path w7_url (push_text (st_of w7_url) (path_bytes w7_url) [46; 9; 46]).
 Print Assumptions C06_7_refuted.
 
 (* the witness records are "http://h/a/b" and "http://h/a/" *)
@@ -1226,7 +1226,7 @@ Proof. split; vm_compute; reflexivity. Qed.
 Theorem C06_frame_segments_exact : forall dbg u ops u', wf_b u = true ->
   byte_eqb (ser u) (scheme_end u + 1) 47 = true -> st_is_file (st_of u) = false ->
   Forall psm_op_usv ops -> Forall psm_op_plain ops -> path_segments_session dbg u ops = Some (u', SOk) ->
-  path u = Some (path_text u) /\ u' = with_path u (session_text (st_of u) (path_text u) ops).
+  path u = Some (path_bytes u) /\ u' = with_path u (session_text (st_of u) (path_bytes u) ops).
 Proof.
   intros dbg u ops u' W Hsl Hnf Hu Hp H. split; [exact (path_text_is_path u W)|].
   exact (path_segments_session_exact dbg u ops u' W Hsl Hnf Hu Hp H).
@@ -1234,7 +1234,7 @@ Qed.
 Check C06_frame_segments_exact : forall dbg u ops u', wf_b u = true ->
   byte_eqb (ser u) (scheme_end u + 1) 47 = true -> st_is_file (st_of u) = false ->
   Forall psm_op_usv ops -> Forall psm_op_plain ops -> path_segments_session dbg u ops = Some (u', SOk) ->
-  path u = Some (path_text u) /\ u' = with_path u (session_text (st_of u) (path_text u) ops).
+  path u = Some (path_bytes u) /\ u' = with_path u (session_text (st_of u) (path_bytes u) ops).
 Print Assumptions C06_frame_segments_exact.
 
 (* the premises are met: a session of push("x<TAB>y"), extend(["..", "c/%", ""]), pop, push("e-acute") on http://h/a/b *)
@@ -1244,7 +1244,7 @@ Example C06_frame_segments_exact_inhabited :
   /\ Forall psm_op_plain [PPush [120; 9; 121]; PExtend [[46; 46]; [99; 47; 37]; []]; PPop; PPush [233]]
   /\ path_segments_session true w7_url [PPush [120; 9; 121]; PExtend [[46; 46]; [99; 47; 37]; []]; PPop; PPush [233]]
      = Some (with_path w7_url [47;97;47;98;47;120;121;47;99;37;50;70;37;50;53;47;37;67;51;37;65;57], SOk)
-  /\ session_text (st_of w7_url) (path_text w7_url) [PPush [120; 9; 121]; PExtend [[46; 46]; [99; 47; 37]; []]; PPop; PPush [233]]
+  /\ session_text (st_of w7_url) (path_bytes w7_url) [PPush [120; 9; 121]; PExtend [[46; 46]; [99; 47; 37]; []]; PPop; PPush [233]]
      = [47;97;47;98;47;120;121;47;99;37;50;70;37;50;53;47;37;67;51;37;65;57].
 Proof. exact session_exact_example. Qed.
 
